@@ -331,6 +331,9 @@ func (c *trCtx) returnTerm(vals []string, pos token.Pos) trLines {
 			head[i], head[j] = head[j], head[i]
 		}
 	}
+	if c.statePack != nil {
+		vals = append([]string{c.statePack()}, vals...)
+	}
 	v := "()"
 	if len(vals) == 1 {
 		v = vals[0]
@@ -367,6 +370,16 @@ func (c *trCtx) stmt(s ast.Stmt, k trK) trLines {
 	case *ast.EmptyStmt:
 		return k()
 	case *ast.ReturnStmt:
+		if c.retHook != nil {
+			return c.retHook(x)
+		}
+		if len(x.Results) == 1 {
+			if call, ok := trUnparen(x.Results[0]).(*ast.CallExpr); ok {
+				if tf, recv := c.calleeOf(call); tf != nil && len(tf.mut) > 0 {
+					return c.returnMutCall(x, call, tf, recv)
+				}
+			}
+		}
 		if len(x.Results) == 0 && c.nresults > 0 {
 			trFail(x.Pos(), "return without values in a function with named results is outside the subset")
 		}
@@ -880,6 +893,7 @@ func (c *trCtx) tryPure(f func() trLines) (res trLines, ok bool) {
 		return f(), true
 	}
 	savedAux, savedTmp, savedLoopN := len(c.aux), c.ntmp, c.nloop
+	savedExtra, savedExtraT, savedExt, savedOrder := len(c.extraParams), len(c.extraTypes), len(c.externals), c.norder
 	c.pureDepth++
 	defer func() {
 		c.pureDepth--
@@ -887,6 +901,7 @@ func (c *trCtx) tryPure(f func() trLines) (res trLines, ok bool) {
 			if _, isPF := r.(trPureFail); isPF {
 				c.aux = c.aux[:savedAux]
 				c.ntmp, c.nloop = savedTmp, savedLoopN
+				c.extraParams, c.extraTypes, c.externals, c.norder = c.extraParams[:savedExtra], c.extraTypes[:savedExtraT], c.externals[:savedExt], savedOrder
 				c.pre = nil
 				res, ok = nil, false
 				return
